@@ -167,7 +167,7 @@ func (i *Int) runOperationFloat(opType op.BinaryOpType, right float64) Object {
 	case op.Divide:
 		return NewFloat(iValue / right)
 	case op.Power:
-		return NewInt(int64(math.Pow(float64(i.value), float64(right))))
+		return NewFloat(math.Pow(iValue, right))
 	default:
 		return TypeErrorf("type error: unsupported operation for int: %v on type float", opType)
 	}
